@@ -156,7 +156,7 @@ def t_real(task):
                     acc.evals += 1
                     if g != want:
                         acc.violation(['lib', op, z, x, p, r], 'mpc_%s(%s,%s,%d,%r) = %s want %s' % (op, z, x, p, r, g, want), kind='real', op=op,
-                                      part='imag-only' if g[0] == want[0] else 'real')
+                                      part='imag-unrounded' if (g[0] == want[0] and g[1] == z[1]) else 'other')
                 if not (Q.fits(ex[0].numerator, ex[0].denominator, p) and Q.fits(ex[1].numerator, ex[1].denominator, p)):
                     acc.nontrivial += 5
         for n in (3, -7, 1025):
@@ -303,7 +303,7 @@ def t_ctx(task):
                     want = (rq(ex[0], p, 'n'), rq(ex[1], p, 'n'))
                     if g._mpc_ != want:
                         acc.violation(['ctx', op, zr, repr(x), p], '%s for z=%s x=%r at prec %d = %s want %s' % (op, zr, x, p, g._mpc_, want), kind='ctx-real', op=op,
-                                      part='imag-only' if g._mpc_[0] == want[0] else 'real')
+                                      part='imag-unrounded' if (g._mpc_[0] == want[0] and g._mpc_[1] == zr[1]) else 'other')
             w = complex(0.5, -0.75)
             ex = ex_op('mul', zr, (mk(0, 1, -1), mk(1, 3, -2)))
             g = z * w
